@@ -9,6 +9,7 @@ import (
 	"verif/enum"
 	"verif/fw"
 	"verif/impl"
+	"verif/model"
 )
 
 var c06Parser = url.NewParser()
@@ -161,6 +162,36 @@ func c06Eval(base, ref, kind string) (*fw.Finding, bool) {
 		})
 		if f2 != nil {
 			return f2, true
+		}
+	}
+	// "for every parsed URL u": the RESULT of a resolution is a parsed URL too - its serialization must resolve to
+	// itself against other bases (where the standard's own algorithms round-trip, which C03's model-based excuse
+	// decides; here only results whose plain re-parse is stable are used)
+	if res.ok {
+		var f3 *fw.Finding
+		_ = safely(func() {
+			again, err := url.Parse(res.obs.Href)
+			if err != nil || impl.ObserveFull(again) != res.obs {
+				cfg := mcfg()
+				mu, mo := cfg.ParseWithBaseString(base, ref)
+				if mo == model.OK {
+					// excused only where the standard's own result for this resolution does not round-trip either
+					if m2, o2 := cfg.Parse(mu.Href(false), nil); o2 == model.OK && m2.Observe() == mu.Observe() && cfg.Delegated == 0 {
+						f3 = fw.F("c06:result-not-self", s, "%s: the result %q is a parsed URL, but its serialization re-parses to something else (the standard's parser maps it to itself)", how, res.obs.Href)
+					}
+				}
+				return
+			}
+			for _, ob := range []string{"http://other.test/x/y?z#w", "foo:/a/b"} {
+				rr, err := url.ParseRef(ob, res.obs.Href)
+				if err != nil || impl.ObserveFull(rr) != res.obs {
+					f3 = fw.F("c06:result-not-self", s, "%s: the result %q does not resolve to itself against the base %q", how, res.obs.Href, ob)
+					return
+				}
+			}
+		})
+		if f3 != nil {
+			return f3, true
 		}
 	}
 	return nil, res.ok
